@@ -7,10 +7,13 @@ DEVS = ["D_KeepParams", "D_KeepData", "D_KeepErrors", "D_KeepIndex", "D_KeepWrit
 MUTS = {"set", "params", "error", "abort", "write", "resp", "req", "hijack", "query", "delegate", "sethandlers", "renderfail", "allowed"}
 
 
-def pcfg(kinds, maxhist, maxmut, emit=True, **dev):
+BASIC = {"set", "params", "error", "abort", "write", "resp", "req"}
+
+
+def pcfg(kinds, maxhist, maxmut, emit=True, muts=MUTS, **dev):
     c = {d: False for d in DEVS}
     c.update(dev)
-    c.update(Kinds=set(kinds), Mutations=MUTS, MaxPool=2, MaxHist=maxhist, MaxMut=maxmut)
+    c.update(Kinds=set(kinds), Mutations=set(muts), MaxPool=2, MaxHist=maxhist, MaxMut=maxmut)
     return core.cfg(init="MCInit", next="MCNext", constants=c, properties=["MCPristine"], view="View",
                     action_constraints=["Emit"] if emit else [])
 
@@ -29,10 +32,14 @@ def run(chk):
             fo.write("\n")
         for kinds, name in ((["static", "dynamic", "optional", "render", "notfound", "notallowed", "panic", "foreign"], "no hook"),
                             (["static", "dynamic", "notfound", "panichook"], "OnPanic hook")):
-            res = core.run_tlc("MC_Pool", cfg_text=pcfg(kinds, 3, 1 if not thorough else 2), timeout=1800, keep_lines=False, line_cb=cb)
+            res = core.run_tlc("MC_Pool", cfg_text=pcfg(kinds, 3, 1), timeout=1800, keep_lines=False, line_cb=cb)
             chk.expect_holds(res, "Pristine (%s)" % name)
-            chk.add_tlc(res, "complete residue graph, histories<=3, kinds %s (%s)" % (kinds, name))
-    s = core.run_harness(["pool", "replay", out], timeout=3000)
+            chk.add_tlc(res, "complete residue graph, histories<=3, one of %d mutations per request, kinds %s (%s)" % (len(MUTS), kinds, name))
+            if thorough:    # pairs of mutations in one request, over the mutations that leave something in the model's context
+                res = core.run_tlc("MC_Pool", cfg_text=pcfg(kinds, 3, 2, muts=BASIC), timeout=3600, keep_lines=False, line_cb=cb)
+                chk.expect_holds(res, "Pristine (%s, mutation pairs)" % name)
+                chk.add_tlc(res, "complete residue graph, histories<=3, up to two of %d mutations per request, kinds %s (%s)" % (len(BASIC), kinds, name))
+    s = core.run_harness(["pool", "replay", out], timeout=5400)
     chk.absorb(s, "pool")
     chk.extra["pool_reuse"] = s.get("info", {})
     os.remove(out)
